@@ -476,6 +476,20 @@ func checkHist(c histCase) *vk.Failure {
 			return f
 		}
 	}
+	// argument-check prologue: every x must fall into a bin
+	{
+		d2 := cloneF(div)
+		d2[nb] = x[n-1]
+		if f := vk.MustPanic("histogram-x-equals-highest-divider", func() { stat.Histogram(nil, d2, x, w) }); f != nil {
+			return f
+		}
+		d3 := cloneF(div)
+		if d3[0] = math.Nextafter(x[0], math.Inf(1)); d3[0] <= d3[1] {
+			if f := vk.MustPanic("histogram-x-below-lowest-divider", func() { stat.Histogram(nil, d3, x, w) }); f != nil {
+				return f
+			}
+		}
+	}
 	if x[0] != x[n-1] {
 		bad := cloneF(x)
 		bad[0], bad[n-1] = bad[n-1], bad[0]
@@ -688,7 +702,7 @@ func checkROC(c rocCase) *vk.Failure {
 	var cut []float64
 	switch c.CutMode {
 	case 1:
-		cut = make([]float64, 0, n+1+int(c.CutSeed%3))
+		cut = make([]float64, 0, max(0, n-1+int(c.CutSeed%4))) // capacity below, at and above the needed n+1
 	case 2:
 		rc := vk.NewSplitMix(c.CutSeed)
 		for k := 0; k < c.NCut; k++ {
